@@ -255,9 +255,26 @@ func checkMain(args []string) int {
 	}
 	start := time.Now()
 	self, _ := os.Executable()
-	outDir := filepath.Join(verifDir(), ".build", "out", p.ID)
+	// one scratch directory per invocation: two runs of the same check (another
+	// seed, another tier) must not read each other's worker files
+	outDir := filepath.Join(verifDir(), ".build", "out", fmt.Sprintf("%s-%d", p.ID, os.Getpid()))
 	os.RemoveAll(outDir)
 	os.MkdirAll(outDir, 0o755)
+	// the most recent run of a property is also reachable under a stable name (tools/foundsum.py)
+	stable := filepath.Join(verifDir(), ".build", "out", p.ID)
+	os.RemoveAll(stable)
+	os.Symlink(outDir, stable)
+	defer func() {
+		// keep only the latest scratch directory of this property
+		olds, _ := filepath.Glob(filepath.Join(verifDir(), ".build", "out", p.ID+"-*"))
+		for _, o := range olds {
+			if o != outDir {
+				if fi, err := os.Stat(o); err == nil && time.Since(fi.ModTime()) > 6*time.Hour {
+					os.RemoveAll(o)
+				}
+			}
+		}
+	}()
 
 	timeout := 8 * time.Minute
 	if *tier == "thorough" {
